@@ -4,6 +4,9 @@ from pathlib import Path
 
 VERIF = Path(__file__).resolve().parent.parent
 REPO = Path(os.environ.get("VERIF_REPO", "/repo"))
+# where evidence and replay files go (the seeded-change tooling points this elsewhere so that a run against a changed copy of the
+# repository does not overwrite the evidence of the unchanged tree)
+OUT = Path(os.environ.get("VERIF_OUT", str(VERIF)))
 SPEC = VERIF / "spec"
 GUARD = "PYDCOP_VERIF"
 
@@ -106,7 +109,7 @@ class Verdict:
     # ---- output ------------------------------------------------------
     def finish(self):
         wall = time.time() - self.t0
-        rdir = VERIF / "replays"
+        rdir = OUT / "replays"
         rdir.mkdir(exist_ok=True)
         for i, f in enumerate(self.findings):
             if i in self.known:
@@ -143,7 +146,7 @@ class Verdict:
         ev = {"property_id": self.prop, "tier": self.tier, "seed": seed(), "level": self.level,
               "coverage": cov, "assumptions": self.assumptions, "wall_s": round(wall, 2),
               "violations": len(self.violations)}
-        edir = VERIF / "evidence"
+        edir = OUT / "evidence"
         edir.mkdir(exist_ok=True)
         (edir / (self.prop + ".json")).write_text(json.dumps(ev, indent=1, default=str) + "\n")
         for l in vio_lines:
